@@ -2061,7 +2061,6 @@ func RuleMW1(c *Ctx) {
 	}
 }
 
-
 // loopBody: the body of a for or range statement, nil for anything else.
 func loopBody(n ast.Node) *ast.BlockStmt {
 	switch l := n.(type) {
